@@ -93,14 +93,22 @@ def run_case(case):
     np.random.random(case["adv"])
     st0 = np.random.get_state()
     kw = dict(calib=(cy, cx), dtype=dtype, crop_corner=case["crop"], seed=case["seed"], tol=tol)
+    variant = case["prior"] % 4
+    shape_arg, accel_arg = (ny, nx), accel
+    if variant == 1:        # lists and NumPy scalars instead of tuples and Python numbers
+        shape_arg, accel_arg = [ny, nx], np.float64(accel)
+        kw.update(calib=[cy, cx], seed=np.int64(case["seed"]), tol=np.float64(tol))
+    elif variant == 2:
+        shape_arg = np.array([ny, nx])
+        kw.update(calib=np.array([cy, cx]))
     aspect = "sq" if ny == nx else ("tall" if ny > nx else "wide")
     acls = "near1" if accel < 1.4 else "huge" if accel >= 8 else "mid"
     ccls = "c0" if cy == 0 and cx == 0 else "c1ax" if cy == 0 or cx == 0 else "c2"
     sig = "|".join(map(str, [aspect, acls, ccls, tol, "crop" if case["crop"] else "full",
-                             dtype.name]))
+                             dtype.name, "v%d" % (case["prior"] % 4)]))
     _CALLS[0] = 0
     try:
-        mask = mr.poisson((ny, nx), accel, **kw)
+        mask = mr.poisson(shape_arg, accel_arg, **kw)
         outcome = "mask"
     except ValueError as e:
         outcome = "error"
@@ -168,7 +176,7 @@ def run_case(case):
         pass
     _CALLS[0] = 0
     try:
-        mask2 = mr.poisson((ny, nx), accel, **kw)
+        mask2 = mr.poisson(shape_arg, accel_arg, **kw)
     except (ValueError, PoissonAbort):
         return violated(sig, "second call with equal arguments did not return a mask", wit,
                         mech="reproducibility")
